@@ -292,6 +292,13 @@ class P2PConnection:
                 return
             self._ack_waiter.set_result(telegram.tpci)
             return
+        if not isinstance(telegram.tpci, TDataConnected):
+            # only numbered data belongs to the connection - the class default
+            # sequence number 0 of other TPDUs must not match an expected 0
+            logger.debug(
+                "Ignoring connection-less telegram from %s: %s", self.address, telegram
+            )
+            return
         if self._response_waiter.done():
             logger.warning(
                 "Received unexpected point-to-point telegram for %s: %s",
